@@ -586,6 +586,8 @@ for k, v in shapes.items():
         tf = traits.get("smithy.api#timestampFormat") or tgt.get("traits", {}).get("smithy.api#timestampFormat")
         if tf:
             member_facts.append((rname, rf, "ts:" + tf))
+        if "smithy.api#required" in traits:
+            member_facts.append((rname, rf, "req:1"))
         if tgt.get("type") == "list":
             member_facts.append((rname, rf, "list:flattened" if "smithy.api#xmlFlattened" in traits else "list:wrapped"))
 w("pub static MEMBER_FACTS: &[(&str, &str, &str)] = &[")
